@@ -33,6 +33,7 @@ func init() {
 		"go.underflow":   goUnderflow,
 		"go.fifthex":     goFiftHex,
 		"go.fiftreject":  goFiftReject,
+		"go.topup":       goTopUp,
 		"go.parsedwrite": goParsedWrite,
 		"go.refs":        goRefs,
 		"go.writeint":    goWriteInt,
@@ -616,7 +617,7 @@ func goUnderflow(a []string) string {
 	}
 	bs := bsOf(bin)
 	if err := bs.Skip(atoi(a[1])); err != nil {
-		return "bad-op"
+		return fail("skip", "Skip(%d) of %d bits failed", atoi(a[1]), len(bin))
 	}
 	before := bs.BitsAvailableForRead()
 	r := applyItem(&bs, a[2])
@@ -677,6 +678,51 @@ func goFiftReject(a []string) string {
 	}
 	if bs, err := boc.BitStringFromFiftHex(txt); err == nil {
 		return fail("fift-accepts", "%q accepted as %s", txt, bs.ToFiftHex())
+	}
+	return "ok"
+}
+
+// go.topup <bits> <extra capacity>: GetTopUppedArray gives the bits followed by the completion tag (1 0…0 up to a byte
+// boundary, nothing when aligned), and SetTopUppedArray of that array gives the bits back.
+func goTopUp(a []string) string {
+	bin := a[0]
+	if bin == "-" {
+		bin = ""
+	}
+	bs := boc.NewBitString(len(bin) + atoi(a[1]))
+	for _, c := range bin {
+		if err := bs.WriteBit(c == '1'); err != nil {
+			return "bad-op"
+		}
+	}
+	arr, err := bs.GetTopUppedArray()
+	room := atoi(a[1]) >= (8-len(bin)%8)%8 // the tag must fit into the capacity
+	if err != nil {
+		if room {
+			return fail("topup-err", "%d bits, %s spare", len(bin), a[1])
+		}
+		return "ok" // no room for the tag: an error is acceptable
+	}
+	want := bin
+	if len(bin)%8 != 0 {
+		want += "1" + strings.Repeat("0", 7-len(bin)%8)
+	}
+	var got strings.Builder
+	for _, b := range arr {
+		fmt.Fprintf(&got, "%08b", b)
+	}
+	if got.String() != want {
+		return fail("topup-bytes", "%d bits give %x", len(bin), arr)
+	}
+	var back boc.BitString
+	if err := back.SetTopUppedArray(arr, len(bin)%8 == 0); err != nil {
+		return fail("topup-parse", "%x", arr)
+	}
+	if bitsOfBs(back) != bin {
+		return fail("topup-roundtrip", "%d bits", len(bin))
+	}
+	if bitsOfBs(bs) != bin {
+		return fail("topup-mutates", "receiver changed")
 	}
 	return "ok"
 }
@@ -1303,6 +1349,7 @@ func genC06(g *h.G) {
 				arg = "-"
 			}
 			g.Emit("go.fifthex", arg, fmt.Sprint(extra))
+			g.Emit("go.topup", arg, fmt.Sprint(extra))
 			g.Count(fmt.Sprintf("fift_len_mod8_%d", n%8))
 		}
 	}
@@ -1398,7 +1445,7 @@ func genC06(g *h.G) {
 			case 8:
 				k := g.Rng.Intn(10)
 				if g.Rng.Intn(8) == 0 {
-					k = g.Pick(62, 63, 64)
+					k = g.Pick(62, 63, 64, 65, 66, 100)
 				}
 				n = k + 1
 				tok = fmt.Sprintf("n:%d", k)
